@@ -67,3 +67,53 @@ def lex_cases(rng, tier):
     for _ in range(20000 if tier == 'thorough' else 1500):
         cases.append((rand_lex_string(rng, 60 if tier == 'thorough' else 40), 'random'))
     return cases
+
+
+# ---------------------------------------------------------------------------------------- synthetic heaps (C07/C08)
+
+def enc_(s):
+    return '-' if s == '' else ','.join(str(ord(c)) for c in s)
+
+
+def rand_heap(rng, max_lists=6, max_recs=4, force_cycle=False):
+    """returns the argument string of a `gc` case"""
+    nl, nr = rng.randint(0, max_lists), rng.randint(0, max_recs)
+    def val():
+        k = rng.random()
+        if k < 0.35 and nl: return 'L%d' % rng.randrange(nl)
+        if k < 0.6 and nr: return 'R%d' % rng.randrange(nr)
+        if k < 0.7: return 'N%016x' % rng.choice([0, 0x3ff0000000000000, 0x4005000000000000])
+        if k < 0.8: return 'S' + enc_(rng.choice(['', 'a', 'ক']))
+        if k < 0.9: return 'B%d' % rng.randint(0, 1)
+        return 'Z'
+    lists = [[val() for _ in range(rng.randint(0, 3))] for _ in range(nl)]
+    recs = [{rng.choice(['k', 'x', 'চ']): val() for _ in range(rng.randint(0, 2))} for _ in range(nr)]
+    if force_cycle and nl >= 2:
+        lists[0].append('L1'); lists[1].append('L0')
+    nscopes = rng.randint(1, 3)
+    scopes = [{rng.choice(['a', 'b', 'c', 'ঘ']) + str(i): val() for _ in range(rng.randint(0, 3))} for i in range(nscopes)]
+    fl = rng.sample(range(nl), rng.randint(0, min(2, nl))) if nl else []
+    fr = rng.sample(range(nr), rng.randint(0, min(2, nr))) if nr else []
+    # a slot on a free list is empty in reachable states; keep some non-empty ones too (the collector must cope)
+    for i in fl:
+        if rng.random() < 0.8: lists[i] = []
+    for i in fr:
+        if rng.random() < 0.8: recs[i] = {}
+    return heap_args(scopes, lists, fl, recs, fr)
+
+
+def heap_args(scopes, lists, fl, recs, fr):
+    p = [str(len(scopes))]
+    for s in scopes:
+        p.append(str(len(s)))
+        for k, v in s.items(): p += [enc_(k), v]
+    p.append(str(len(lists)))
+    for l in lists:
+        p.append(str(len(l))); p += l
+    p.append(str(len(fl))); p += [str(i) for i in fl]
+    p.append(str(len(recs)))
+    for r in recs:
+        p.append(str(len(r)))
+        for k, v in r.items(): p += [enc_(k), v]
+    p.append(str(len(fr))); p += [str(i) for i in fr]
+    return ' '.join(p)
